@@ -5,15 +5,15 @@
 # 3. pinned tree + patch + demo: exactly the demo test(s) fail
 WT=$1; OUT=$2
 cd $WT || exit 2
-git checkout -q -- . && git clean -fdq -e target
+git reset -q --hard && git clean -fdq -e target
 git apply $OUT/demo.diff || { echo "demo.diff does not apply"; exit 2; }
 CARGO_NET_OFFLINE=true cargo test --offline 2>&1 | grep -E "^test result|FAILED|failed" | head -5 > $OUT/run_demo_only.txt
-git checkout -q -- . && git clean -fdq -e target
+git reset -q --hard && git clean -fdq -e target
 git apply $OUT/patch.diff || { echo "patch.diff does not apply"; exit 2; }
 CARGO_NET_OFFLINE=true cargo test --offline 2>&1 | grep -E "^test result|FAILED|failed" | head -5 > $OUT/run_patch_only.txt
 git apply $OUT/demo.diff || { echo "demo.diff does not apply on patch"; exit 2; }
 CARGO_NET_OFFLINE=true cargo test --offline 2>&1 | grep -E "^test result|FAILED|failed|^test .* FAILED" | head -8 > $OUT/run_patch_demo.txt
-git checkout -q -- . && git clean -fdq -e target
+git reset -q --hard && git clean -fdq -e target
 echo "--- demo only (expect all pass)"; cat $OUT/run_demo_only.txt
 echo "--- patch only (expect 209 pass)"; cat $OUT/run_patch_only.txt
 echo "--- patch + demo (expect demo fails)"; cat $OUT/run_patch_demo.txt
